@@ -117,6 +117,9 @@ void reb_read_simulationarchive_from_stream_with_messages(struct reb_simulationa
     fseek(sa->inf, 0, SEEK_SET);  
     struct reb_binary_field field = {0};
     sa->version = 0;
+    sa->nblobs = 0;
+    sa->t = NULL;
+    sa->offset = NULL;
     double t0 = 0;
     sa->reb_version_major = 0;
     sa->reb_version_minor = 0;
@@ -330,7 +333,7 @@ void reb_read_simulationarchive_from_stream_with_messages(struct reb_simulationa
                     sa->t = NULL;
                     free(sa->offset);
                     sa->offset = NULL;
-                    free(sa);
+                    // Note: sa itself is owned by the caller (it may live on the caller's stack or in a Python object).
                     *warnings |= REB_SIMULATION_BINARY_ERROR_SEEK;
                     return;
                 }
@@ -391,6 +394,11 @@ struct reb_simulationarchive* reb_simulationarchive_create_from_file(const char*
         sa = NULL;
     }else{
         reb_input_process_warnings(NULL, warnings);
+        if (sa->inf==NULL){
+            // A fatal error occured while reading the file (no complete snapshot, or unsupported version).
+            reb_simulationarchive_free(sa);
+            sa = NULL;
+        }
     }
     return sa;
 }
